@@ -310,6 +310,43 @@ func ruleHybridCandidates(r *Run, k *hybridKind) {
 		if ret, ok := emptySucc.Instrs[len(emptySucc.Instrs)-1].(*ssa.Return); ok && classifyErr(ret) == ErrNil {
 			okRet = true
 		}
+		// resolved per path: every path from the empty outcome returns success with an empty result and runs no sub-search
+		if !okRet {
+			paths, trunc := enumPaths(emptySucc, walkCfg{MaxVisits: 2, MaxPaths: 5000})
+			good := !trunc && len(paths) > 0
+			for _, pth := range paths {
+				if !pth.Feasible() {
+					continue
+				}
+				if pth.End != EndReturn || pathErrClass(pth) != ErrNil {
+					good = false
+					continue
+				}
+				for _, in := range pth.Instrs() {
+					if call, isCall := in.(*ssa.Call); isCall && call.Call.IsInvoke() && (call.Call.Method.Name() == "Execute" || call.Call.Method.Name() == "NewSearch") {
+						good = false
+					}
+				}
+				// the result: an empty literal / make(…, 0) / nil
+				rv := resolveOnPath(pth, pth.Ret.Results[0])
+				switch x := rv.(type) {
+				case *ssa.Const:
+				case *ssa.MakeSlice:
+					if k0, isC := x.Len.(*ssa.Const); !isC || k0.Int64() != 0 {
+						good = false
+					}
+				case *ssa.Slice:
+					if a, isA := x.X.(*ssa.Alloc); !isA || !strings.Contains(a.Type().String(), "[0]") {
+						good = false
+					}
+				default:
+					good = false
+				}
+			}
+			if good {
+				okRet = true
+			}
+		}
 	})
 	r.Check(okRet, "C05.EMPTY", "empty:returns-empty", w.Pos(fn.Pos())+" "+name, "no candidates ⇒ empty result, no error", "the empty-candidate outcome does not return an empty success")
 	// NIL: NewSearch on each sub-index is dominated by a nil test returning an error
@@ -331,7 +368,8 @@ func ruleHybridCandidates(r *Run, k *hybridKind) {
 				continue
 			}
 			if c.S(bo.X) == recv && c.S(bo.Y) == "nil" {
-				if ret, isRet := d.Succs[0].Instrs[len(d.Succs[0].Instrs)-1].(*ssa.Return); isRet && classifyErr(ret) == ErrNonNil {
+				// the nil outcome fails (resolved per path) without reaching the use
+				if onlyFailsFrom(d.Succs[0], func(in ssa.Instruction) bool { return in == ssa.Instruction(ns) }) == nil {
 					ok = true
 				}
 			}
